@@ -4,7 +4,7 @@ from mc.tasks import base
 
 PID = "C08"
 LEVEL = "model_checking"
-KINDS = ("shift", "permute", "permute-occurrences", "relabel")
+KINDS = ("shift", "permute", "relabel")      # exactly the relations the property lists
 
 
 def replay(case, acc):
